@@ -176,6 +176,7 @@ class SysWorld:
         self.snoopers: List[Any] = []
         self.snoop_scope: List[Tuple[str, Optional[str]]] = []
         self.mode, self.frag = "fifo", "random"
+        self.report_mode: Optional[str] = None
         self.started = False
 
     def start(self, mode: str, frag: str) -> bool:
@@ -263,7 +264,7 @@ class SysWorld:
     def snapshot(self, op: dict, quiet: bool) -> dict:
         rec = dict(op)
         rec["quiet"] = quiet
-        rec["mode"] = self.mode
+        rec["mode"] = self.report_mode or self.mode
         rec["truth"] = self.truth()
         views = []
         for c, k in zip(self.clients, self.kinds):
@@ -321,7 +322,7 @@ class SysWorld:
         # (re-)enabling a property republishes it: definition AND current values.  Under global send order a client that
         # enabled BLOBs must then hold the BLOB again (the definition alone carries no payload)
         strict = []
-        if self.mode == "fifo" and o in ("ven", "gen") and op.get("b"):
+        if (self.report_mode or self.mode) == "fifo" and o in ("ven", "gen") and op.get("b"):
             for vi, vv in enumerate(self.dep["vecs"], start=1):
                 if vv["kind"] == "blob" and ((o == "ven" and vi == op["v"]) or (o == "gen" and vv["grp"] == op["g"])):
                     strict.append([vv["dev"], vv["name"]])
@@ -339,6 +340,10 @@ def c01_trace(r, tier: str) -> List[dict]:
     nclients = r.choice([1, 1, 2])
     w = SysWorld(dep, r, nclients=nclients)
     w.net.backpressure = r.random() < 0.3          # drain() returns only once the peer has taken the data
+    if w.net.backpressure:
+        # a message routed to a busy connection is written later than one routed afterwards to an idle connection: the order of the
+        # writes is then not the order of routing, and what the two connections of one client carry is unordered ("free")
+        w.report_mode = "free"
     try:
         mode = r.choice(["fifo", "free"])
         frag = r.choice(["whole", "byte", "1024", "random", "random"])
